@@ -449,7 +449,145 @@ def const_len(ctx, fa, t, depth=0):
     return None
 
 
+# ---------------------------------------------------------------- symbolic bounds
+def _range_of(t):
+    """(start, end, inclusive, step) if t is an element of `(a..b)`, `(a..=b)` or such a range `.step_by(s)`"""
+    t = strip(t)
+    if not (t[0] == "call" and t[2].split("::")[-1] == "next" and t[3]):
+        return None
+    it = strip(t[3][0])
+    step = ("lit", 1)
+    if it[0] == "call" and it[2].split("::")[-1] == "step_by" and len(it[3]) == 2:
+        step = it[3][1]
+        it = strip(it[3][0])
+    if is_agg(it) and it[1].split("::")[-1] == "Range":
+        return agg_field(it, "start"), agg_field(it, "end"), False, step
+    if it[0] == "call" and it[2].endswith("RangeInclusive::<Idx>::new") and len(it[3]) == 2:
+        return it[3][0], it[3][1], True, step
+    if is_agg(it) and it[1].split("::")[-1] == "RangeInclusive":
+        return agg_field(it, "start"), agg_field(it, "end"), True, step
+    return None
+
+
+def upper_bounds(ctx, fa, bb, E):
+    """[(B, strict)]: terms with E <= B (E < B if strict) at block bb — from dominating comparison
+    facts and from what a range iterator can yield"""
+    out = []
+    for op, a, b in known_relations(ctx, fa, bb):
+        if a is None or b is None:
+            continue
+        if op in ("Le", "Lt") and same(a, E):
+            out.append((b, op == "Lt"))
+    r = _range_of(E)
+    if r is not None:
+        out.append((r[1], not r[2]))
+    return out
+
+
+def lower_bounds(ctx, fa, bb, E):
+    """terms L with E >= L: the start of the range it is drawn from, or the initial value of a counter
+    that is only ever increased by a positive constant"""
+    out = []
+    r = _range_of(E)
+    if r is not None:
+        out.append(r[0])
+    sm = loop_sum(E)
+    if sm is not None:
+        st = ev(ctx, sm[1])
+        if st is not None and st > 0:
+            out.append(sm[0])
+    for op, a, b in known_relations(ctx, fa, bb):
+        if a is not None and b is not None and op in ("Ge", "Gt") and same(a, E):
+            out.append(b)
+    return out
+
+
+def _min_parts(t):
+    t = unwrap_ovf(strip(t))
+    if t[0] == "call" and t[2].split("::")[-1] == "min" and len(t[3]) == 2:
+        return [unwrap_ovf(strip(x)) for x in t[3]]
+    return [t]
+
+
+def discharge_bounds(ctx, site):
+    """A2 by symbolic bounds: i <= min(P, len(base)) - c  gives  i + k < len(base) for k < c, etc."""
+    fa, bb = site.fa, site.bb
+    if site.kind != "assert":
+        return None, None
+    d = site.detail
+    if d == "BoundsCheck":
+        ln, ix = (unwrap_ovf(strip(x)) for x in site.ops)
+        k = 0
+        E = ix
+        if ix[0] == "bin" and ix[1] == "Add" and ev(ctx, ix[3]) is not None:
+            E, k = unwrap_ovf(strip(ix[2])), ev(ctx, ix[3])
+        N = ev(ctx, ln)
+        # (E - y) / dv < N
+        if N is not None and ix[0] == "bin" and ix[1] == "Div" and ev(ctx, ix[3]):
+            dv = ev(ctx, ix[3])
+            num = unwrap_ovf(strip(ix[2]))
+            if num[0] == "bin" and num[1] == "Sub":
+                E2, y = unwrap_ovf(strip(num[2])), unwrap_ovf(strip(num[3]))
+                ly = lin(ctx, y)
+                for B, strict in upper_bounds(ctx, fa, bb, E2):
+                    Bu = unwrap_ovf(strip(B))
+                    c = 0
+                    if Bu[0] == "bin" and Bu[1] == "Sub" and ev(ctx, Bu[3]) is not None:
+                        c, Bu = ev(ctx, Bu[3]), unwrap_ovf(strip(Bu[2]))
+                    for M in _min_parts(Bu):
+                        lm = lin(ctx, M)
+                        if lm is None or ly is None:
+                            continue
+                        diff = {k_: lm.get(k_, 0) - ly.get(k_, 0) for k_ in set(lm) | set(ly)}
+                        if all(v == 0 for k_, v in diff.items() if k_ != 1):
+                            top = int(diff.get(1, 0)) - c - (1 if strict else 0)
+                            if top >= 0 and top // dv < N:
+                                return "A2", "(i - y) / %d with i <= y + %d: at most %d < %d" % (dv, top, top // dv, N)
+        # E + k < len(base)
+        if ln[0] == "len":
+            for B, strict in upper_bounds(ctx, fa, bb, E):
+                Bu = unwrap_ovf(strip(B))
+                c = 0
+                if Bu[0] == "bin" and Bu[1] == "Sub" and ev(ctx, Bu[3]) is not None:
+                    c, Bu = ev(ctx, Bu[3]), unwrap_ovf(strip(Bu[2]))
+                for M in _min_parts(Bu):
+                    if same(M, ln) and (k < c or (strict and k <= c)):
+                        return "A2", "index <= min(.., len(base)) - %d, offset %d: below len(base)" % (c, k)
+    if d == "Overflow(Sub)":
+        a, b = (unwrap_ovf(strip(x)) for x in site.ops)
+        for L in lower_bounds(ctx, fa, bb, a):
+            if same(L, b):
+                return "A2", "minuend is drawn from a range / counter that starts at the subtrahend"
+        # min(P, Q) - c with P >= c and Q >= c
+        cv = ev(ctx, b)
+        if cv is not None and a[0] == "call" and a[2].split("::")[-1] == "min":
+            def at_least(t_):
+                t_ = unwrap_ovf(strip(t_))
+                if t_[0] == "bin" and t_[1] == "Add" and ((ev(ctx, t_[3]) or 0) >= cv or (ev(ctx, t_[2]) or 0) >= cv):
+                    return True   # unsigned x + k >= k
+                if (ev(ctx, t_) or -1) >= cv:
+                    return True
+                for op, x, y in known_relations(ctx, fa, bb):
+                    if x is None or y is None:
+                        continue
+                    if op in ("Ge", "Gt") and same(x, t_):
+                        yu = unwrap_ovf(strip(y))
+                        if (ev(ctx, yu) or -1) >= cv or (yu[0] == "bin" and yu[1] == "Add" and ((ev(ctx, yu[3]) or 0) >= cv or (ev(ctx, yu[2]) or 0) >= cv)):
+                            return True
+                return False
+            if all(at_least(x) for x in a[3]):
+                return "A2", "min(P, Q) - %d with P >= %d and Q >= %d" % (cv, cv, cv)
+    return None, None
+
+
 def discharge_auto(ctx, site):
+    how, why = _discharge_auto(ctx, site)
+    if how:
+        return how, why
+    return discharge_bounds(ctx, site)
+
+
+def _discharge_auto(ctx, site):
     fa, bb = site.fa, site.bb
     facts = None
     def F():
@@ -778,6 +916,9 @@ def load_table():
     return {e["key"]: e for e in json.load(open(path))}
 
 
+USED_KEYS = set()
+
+
 def panic_rule(ctx, prop, rule, entries, floor=0, skip_fns=(), only_fn=None):
     Site.ctx = ctx
     names = closure_of(ctx, entries)
@@ -813,6 +954,7 @@ def panic_rule(ctx, prop, rule, entries, floor=0, skip_fns=(), only_fn=None):
                 near = False
                 if e is not None:
                     used.add(key)
+                    USED_KEYS.add(key)
                 else:
                     # the same site after a restructuring that only changed HOW its operands are computed
                     # (a helper, another accessor): same function, kind, detail, data sources (parameters,
@@ -820,6 +962,7 @@ def panic_rule(ctx, prop, rule, entries, floor=0, skip_fns=(), only_fn=None):
                     cands = near_index(table).get(data_key(key), [])
                     if len(cands) == 1:
                         e, near = cands[0], True
+                        USED_KEYS.add(e["key"])
                 if e is not None:
                     if e.get("guard"):
                         # A3: the named guard must still dominate the site
